@@ -65,7 +65,7 @@ SETTINGS = {
         "consistent": lambda o: all((bin(m).count("1") > 1) == (o["cfg:pika.bind"] == "none") for m in o["worker_masks"]),
     },
     "stack": {
-        "values": {"env": "0x30000", "ini": "0x40000"},
+        "values": {"env": "0x30000", "ini": "0x40000", "clo_ini": "0x28000"},
         "env": lambda v: {"PIKA_SMALL_STACK_SIZE": v}, "ini": lambda v: ["--pika:ini=pika.stacks.small_size=" + v],
         "default": "0x20000",
         "observe": lambda o: hex(int(o["cfg:pika.stacks.small_size"], 0)),
@@ -102,7 +102,7 @@ SETTINGS = {
         "consistent": lambda o: (not o["cfg:pika.process_mask"]) or o["cfg:pika.bind"] == "none" or all(m & ~int(o["cfg:pika.process_mask"], 0) == 0 for m in o["worker_masks"]),
     },
     "free": {
-        "values": {"ini": "hello"},
+        "values": {"ini": "hello", "clo_ini": "world"},
         "ini": lambda v: ["--pika:ini=verif.free_entry!=" + v],    # '!=' creates a new entry
         "default": "<unset>",
         "observe": lambda o: o["cfg:verif.free_entry"],
@@ -253,7 +253,7 @@ def main():
                     srcs_here = {src for st, src in c["point"] if st == setting}
                     ident = "precedence-" + setting
                     if {"ini", "clo_ini"} <= srcs_here and got == s["values"]["clo_ini"]:
-                        ident = "cmdline-ini-vs-commandline-options-ini"    # both are --pika:ini entries, the one from the environment string wins
+                        ident = "cmdline-ini-vs-commandline-options-ini-" + setting    # both are --pika:ini entries, the one from the environment string wins (keyed per setting: a known finding for one setting must not hide another)
                     fail(idx, ident, f"{setting}: the runtime uses {got!r}, precedence denotes {sorted(c['expected'][setting])}")
                 elif not s["consistent"](o):
                     fail(idx, "not-in-effect-" + setting, f"{setting}: resolved value {got!r} is not what the running runtime uses ({ {k: o[k] for k in ('os_threads', 'scheduler', 'stack_small', 'stack_medium', 'stack_large', 'stack_huge', 'worker_masks')} })")
